@@ -257,7 +257,8 @@ func c18LLMNR(c *h.Ctx) error {
 						ok = false
 					} else if n < 2 || int(binary.BigEndian.Uint16(buf[:2])) != e.R {
 						c.Fail("llmnr.Server.processHandlers", "reply-id", fmt.Sprintf("reply to query %d carries id %d", e.R, binary.BigEndian.Uint16(buf[:2])), sample())
-					} else if m, err := llmnr.DecodeMessage(buf[:n]); err != nil || len(m.Answers) != 1 || len(m.Answers[0].RData) != 4 || int(m.Answers[0].RData[3]) != e.R {
+					} else if m, err := llmnr.DecodeMessage(buf[:n]); err != nil || len(m.Answers) != 1 || len(m.Answers[0].RData) != 4 || int(m.Answers[0].RData[3]) != e.R ||
+						m.Answers[0].Name != fmt.Sprintf("host%d", e.R) {
 						c.Fail("llmnr.Server.processHandlers", "reply-answer", fmt.Sprintf("reply to query %d does not carry its answer", e.R), sample())
 					}
 				}
